@@ -52,6 +52,12 @@ Theorem mid_message_block : forall kind t d, op_ok [6; kind; t; d] = true ->
   run_op [6; kind; t; d] = Some [status_of kind; 0; 0; 0; 1].
 Proof. intros kind t d H. unfold run_op. rewrite H. reflexivity. Qed.
 
+(* the seventh blocking point (the back-off sleep before a retry): the RPC ends with the status of
+   its CONTEXT (not of the failed attempt), at once; its first attempt had a handler *)
+Theorem retry_backoff_block : forall kind t d, op_ok [7; kind; t; d] = true ->
+  run_op [7; kind; t; d] = Some [status_of kind; 0; 1; server_timeout d - d; 1].
+Proof. intros kind t d H. unfold run_op. rewrite H. reflexivity. Qed.
+
 Theorem model_trace_holds : forall cfg ops, forallb op_ok ops = true ->
   exists obs, run cfg ops = Some obs /\ holds_b cfg ops obs = true.
 Proof.
